@@ -272,8 +272,22 @@ pub fn generate(kind: &str, thorough: bool, seed: u64, corpus: &str, out: &mut O
             let mut sis = pool();
             for i in 0..(3 * scale) { sis.push(gen::SchemaInfo::new(&format!("random{}", i), &gen::random_schema(&mut rng))); }
             sis.push(gen::SchemaInfo::new("merge-order", &format!("{}\ntype Human {{ name: String  nn: Int!  self: Human }}\ntype Query {{ human: Human }}\n", schemas::PRELUDE)));
+            sis.push(gen::SchemaInfo::new("dup-names", &format!("{}\ntype Query {{ a: Int  f(x: Int!, y: Int, s: String): Int  t: T  u: U }}\ntype T {{ a: Int  t: T }}\ntype V {{ a: Int }}\nunion U = T | V\n", schemas::PRELUDE)));
             for si in &sis {
                 let mut docs: Vec<String> = corpus_docs(corpus, &si.name);
+                if si.name == "dup-names" {
+                    // two definitions of one name in one scope (F18): a uniqueness rule reports whatever the order; name-keyed
+                    // first-match lookups make other rules' reports depend on which of the two comes first
+                    docs.clear();
+                    for t in ["query ($v: Int, $v: Int!) { f(x: $v) }", "query ($v: Int = 1, $v: Int) { f(x: $v) }", "query ($v: Int!, $v: String) { f(x: $v) }",
+                              "query ($v: Int!, $v: Int!) { f(x: $v) }", "query ($v: Int, $w: Int!) { f(x: $w, y: $v) }",
+                              "{ t { ...F } } fragment F on T { a } fragment F on V { a }", "{ t { ...F } } fragment F on T { a } fragment F on T { t { ...F } }",
+                              "query ($v: Int) { ...F } fragment F on Query { f(x: 1, y: $v) } fragment F on Query { f(x: $v) }",
+                              "query { ...F } fragment F on Query { a } fragment F on Query { f(x: $v) }",
+                              "query ($v: Int) { ...F } fragment F on Query { a } fragment F on Query { f(x: 1, y: $v) }",
+                              "{ ...F } fragment F on Query { a } fragment F on Query { a }",
+                              "query Q { a } query Q { zz }", "query Q { a } query Q { f(x: 1) }", "{ f(x: 1, x: \"s\") }", "{ f(x: 1, s: \"s\", s: 2) }"] { docs.push(t.to_string()); }
+                }
                 if si.name == "merge-order" {
                     docs.clear();
                     for t in ["{ human { t: self { x: name ...A ...F } } } fragment A on Human { ...G1 } fragment F on Human { ...G1 ...G2 } fragment G1 on Human { nn } fragment G2 on Human { x: nn }",
@@ -281,7 +295,7 @@ pub fn generate(kind: &str, thorough: bool, seed: u64, corpus: &str, out: &mut O
                               "{ human { x: name ...A } } fragment A on Human { ...B self { ...B } } fragment B on Human { x: nn }",
                               "{ human { self { x: name } ...A } } fragment A on Human { self { ...B } } fragment B on Human { x: name }"] { docs.push(t.to_string()); }
                 }
-                if si.name != "merge-order" { for k in 0..(36 * scale) { let mut g = gen::DocGen::new(si, rng.fork(), [0, 0, 4, 12][k % 4], 2 + k % 3); docs.push(g.document()); } }
+                if si.name != "merge-order" && si.name != "dup-names" { for k in 0..(36 * scale) { let mut g = gen::DocGen::new(si, rng.fork(), [0, 0, 4, 12][k % 4], 2 + k % 3); docs.push(g.document()); } }
                 // a permuted copy of the schema (definitions, fields, arguments, enum values, union members, interface lists, directive locations)
                 let psd = crate::rewrite::perm_schema(&si.doc, &mut rng);
                 let psi = gen::SchemaInfo::new(&format!("{}-permuted", si.name), &format!("{}", psd));
@@ -304,6 +318,7 @@ pub fn generate(kind: &str, thorough: bool, seed: u64, corpus: &str, out: &mut O
                     push("permute-arguments", crate::rewrite::perm_arguments(&base, &mut rng), out);
                     push("reverse-arguments", crate::rewrite::reverse_arguments(&base), out);
                     push("permute-variables", crate::rewrite::perm_variables(&base, &mut rng), out);
+                    push("reverse-variables", crate::rewrite::reverse_variables(&base), out);
                     push("rename", crate::rewrite::rename_all(&base), out);
                     push("wrap-untyped-inline", crate::rewrite::wrap_untyped(&base), out);
                     for name in crate::rewrite::inlinable(&base) { push("inline-spread", crate::rewrite::inline_fragment(&base, &name), out); }
